@@ -187,9 +187,10 @@ def gen_case(rng):
         if rng.random() < 0.3:
             victims = [e["fd"] for e in fds]
         if victims:
-            plan = dict(at=rng.randrange(1, 3 * n + 2), close=victims)
+            plan = dict(at=rng.randrange(1, 5 * n + 3), close=victims)
     io, io_vals, io_feature = gen_io(rng)
     return dict(pid=rng.choice([50, 7, 4194303]), fds=fds, plan=plan, io=io, io_vals=io_vals,
+                fd_reserved=rng.choice([0, 0, 0, 1, 2, 7]),
                 io_feature=io_feature)
 
 
@@ -298,6 +299,7 @@ def run_case(case, acc):
             d["info_gone"] = True
         p.fds[e["fd"]] = d
     p.io = _b(case["io"])
+    p.fd_reserved = case.get("fd_reserved", 0)     # numbers reserved by system calls in progress (counted by st_size only)
     viols = []
 
     def newvk():
